@@ -38,3 +38,11 @@ package tcp
 //@   loop 0 invariant delay_bounded: 0 <= tempDelay && tempDelay <= 1000000000
 //@   ensures result_of_last_accept: last("AcceptTCP") >= 0 && evarg(last("AcceptTCP"), 0) == t.listener && implies(result1 == nil, result0 != nil && evres(last("AcceptTCP"), 1) == nil)
 //@   ensures closed_acceptor_reports_the_error: implies(evres(last("AcceptTCP"), 1) != nil, result1 != nil && result0 == nil && evis(last("AcceptTCP") + 1, "load t.closed"))
+
+// no mutable package-level state (C12, and every property whose plan touches this package)
+//@ property C12
+//@ globals immutable
+//@ property C17 C12
+//@ field tcpTransport.* covered
+//@ field tcpTransport.Transport immutable newTcpTransport
+//@ field tcpTransport.client immutable newTcpTransport
